@@ -222,31 +222,51 @@ func c12One(c *Ctx, r *Rand, idx int) {
 		callStop()
 		stops++
 	}
-	// ---- wait for the fence: Stop (all calls) and Run returned
+	// ---- wait for the fence: the FIRST Stop call to return, and Run (every Stop that returns must leave the
+	// server quiescent once Run has returned too; a concurrent second Stop is awaited afterwards)
 	ok := true
-	for i := 0; i < stops; i++ {
-		select {
-		case err := <-stopRet:
-			if err != nil {
-				c.Violate("Stop returned an error", err.Error(), det)
-			}
-		case <-time.After(patience):
-			c.Inconclusive(fmt.Sprintf("Stop did not return (order %s state %s): see C11", order, state))
-			ok = false
+	select {
+	case err := <-stopRet:
+		if err != nil {
+			c.Violate("Stop returned an error", err.Error(), det)
 		}
+	case <-time.After(patience):
+		c.Inconclusive(fmt.Sprintf("Stop did not return (order %s state %s): see C11", order, state))
+		ok = false
 	}
 	var runErr error
-	select {
-	case runErr = <-runRet:
-	case <-time.After(patience):
-		c.Violate("Run did not return after Stop", fmt.Sprintf("order %s state %s", order, state), det)
-		ok = false
+	if ok {
+		select {
+		case runErr = <-runRet:
+		case <-time.After(patience):
+			c.Violate("Run did not return after Stop", fmt.Sprintf("order %s state %s", order, state), det)
+			ok = false
+		}
 	}
 	if !ok {
 		return
 	}
 	fence := nextSeq()
 	infl, oncl := inflight.Load(), onclosing.Load()
+	seenMu.Lock()
+	var notClosed []int
+	for id := range seenConn {
+		if closedConn[id] != 1 {
+			notClosed = append(notClosed, id)
+		}
+	}
+	seenMu.Unlock()
+	for i := 1; i < stops; i++ {
+		select {
+		case err := <-stopRet:
+			if err != nil {
+				c.Violate("Stop returned an error", err.Error(), det)
+			}
+		case <-time.After(patience):
+			c.Inconclusive(fmt.Sprintf("the second Stop did not return (order %s state %s)", order, state))
+			return
+		}
+	}
 	// ---- conditions at the fence
 	c.Count("fences_checked", 1)
 	c.Count("order/"+order, 1)
@@ -260,14 +280,9 @@ func c12One(c *Ctx, r *Rand, idx int) {
 	if oncl != 0 {
 		c.Violate("an OnClose callback is still in progress when Stop and Run have returned", fmt.Sprintf("%d callbacks in progress at the fence (order %s, state %s)", oncl, order, state), det)
 	}
-	seenMu.Lock()
-	for id := range seenConn {
-		if closedConn[id] != 1 {
-			c.Violate("OnClose has not completed exactly once for a served connection when Stop and Run have returned", fmt.Sprintf("connection %d: %d completed OnClose callbacks at the fence (order %s, state %s)", id, closedConn[id], order, state), det)
-			break
-		}
+	if len(notClosed) > 0 {
+		c.Violate("OnClose has not completed exactly once for a served connection when Stop and Run have returned", fmt.Sprintf("connections %v had no (or more than one) completed OnClose callback at the fence (order %s, state %s, second stop %s)", notClosed, order, state, second), det)
 	}
-	seenMu.Unlock()
 	// port: dial refused, address bindable again
 	if cn, err := net.DialTimeout("tcp", addr, 2*time.Second); err == nil {
 		cn.Close()
